@@ -1,6 +1,7 @@
 import PrimaiteModel.Model.C13Wire
 import PrimaiteModel.Model.C13Recv
 import PrimaiteModel.Model.C13Bots
+import PrimaiteModel.Model.C13C2
 open Primaite Primaite.Lifecycle Primaite.Registries Primaite.Recv
 
 /-! Line-protocol driver for the receive-path / payload model (C13, round 3): two nodes `A` and `B` with class data and an
@@ -268,9 +269,32 @@ def botStep (ws : List String) : String :=
     | _, _, _, _, _ => "bad-op"
   | _ => "bad-op"
 
+open Primaite.C2 in
+/-- the C2 connection state machine (stateless: the rig passes the instance's state before the call) -/
+def c2Step (ws : List String) : String :=
+  let showLink (c : Link) := s!"active={showBool c.active} remote={showBool c.remote} inact={c.inact} freq={c.freq}"
+  match ws with
+  | ["btick", run, good, reply, active, remote, inact, freq, att] =>
+    match parseBool run, parseBool good, parseBool reply, parseBool active, parseBool remote, inact.toNat?, freq.toNat?, parseBool att with
+    | some run, some good, some reply, some a, some r, some i, some f, some t =>
+      let o := beaconTick run good reply { active := a, remote := r, inact := i, freq := f, attempted := t }
+      s!"{showLink o.link} attempted={showBool o.link.attempted} sent={o.sent} closed={showBool o.closed}"
+    | _, _, _, _, _, _, _, _ => "bad-op"
+  | ["stick", run, good, active, remote, inact, freq] =>
+    match parseBool run, parseBool good, parseBool active, parseBool remote, inact.toNat?, freq.toNat? with
+    | some run, some good, some a, some r, some i, some f =>
+      showLink (serverTick run good { active := a, remote := r, inact := i, freq := f })
+    | _, _, _, _, _, _ => "bad-op"
+  | ["allowed", canNet, remote] =>
+    match parseBool canNet, parseBool remote with
+    | some n, some r => showBool (commandAllowed n { remote := r })
+    | _, _ => "bad-op"
+  | _ => "bad-op"
+
 def step (st : St) (ws : List String) : St × String :=
   match ws with
   | "bot" :: rest => (st, botStep rest)
+  | "c2" :: rest => (st, c2Step rest)
   | "conn" :: rest => let (c', o) := connStep st.c rest; ({ st with c := c' }, o)
   | ws => let (w', o) := wstep st.w ws; ({ st with w := w' }, o)
 
